@@ -233,7 +233,18 @@ fn socket_write(k: &mut Kawa<VecBuf>, n: usize, wire: &mut Vec<u8>) -> usize {
     let avail = out_bytes(k, 0);
     let n = n.min(avail.len());
     wire.extend_from_slice(&avail[..n]);
+    let end_before = k.storage.end;
     k.consume(n);
+    // H1BODY_MIRROR_FIX=1: mirror proposed_fixes/h2-flush-rebase-queued-blocks.diff (re-base the
+    // queued blocks after a shift) to check that the repair removes the corruption
+    if std::env::var("H1BODY_MIRROR_FIX").is_ok() {
+        let shifted = end_before - k.storage.end;
+        if shifted > 0 {
+            for b in k.blocks.iter_mut() {
+                b.push_left(shifted as u32);
+            }
+        }
+    }
     n
 }
 
